@@ -113,3 +113,89 @@ def _(self):
     requires(self != None and self._raw_indexes != None and self._raw_wrapper != None)
     modifies('list[int]@self._raw_indexes', 'list[int]@fresh')
     ensures(RI(self._raw_indexes, old(elems(self._raw_wrapper)), old(len(self._raw_wrapper))))
+
+# ================================================================ the view itself (RepeatedValueWrapper): what its methods do, through the index table, to the raw list
+# raw list methods (proved for integer positions in unit l2.wrapper; here over the ghost item list g_raw). A raw mutation notifies every registered view, so any
+# index table may change (list[int]); what the tables hold afterwards is handle_splice's contract, not restated here.
+@contract('RepeatedNodeWrapper.__len__')
+def _(self):
+    requires(self != None and self.g_raw != None)
+    modifies()
+    ensures(result == len(self.g_raw))
+
+@contract('RepeatedNodeWrapper.__getitem__')
+def _(self, index):
+    requires(self != None and self.g_raw != None and 0 <= index and index < len(self.g_raw))
+    modifies()
+    ensures(result is self.g_raw[index])
+
+@contract('RepeatedNodeWrapper.insert')
+def _(self, index, value):
+    requires(self != None and self.g_raw != None and 0 <= index and index <= len(self.g_raw))
+    modifies('list[RawModel]@self.g_raw', 'list[int]')
+    ensures(len(self.g_raw) == old(len(self.g_raw)) + 1
+            and forall(lambda k: implies(0 <= k and k < len(self.g_raw), self.g_raw[k] == ite(k < index, sel(old(elems(self.g_raw)), k), ite(k == index, value, sel(old(elems(self.g_raw)), k - 1)))), self.g_raw[k]))
+
+@contract('RepeatedNodeWrapper.append')
+def _(self, value):
+    requires(self != None and self.g_raw != None)
+    modifies('list[RawModel]@self.g_raw', 'list[int]')
+    ensures(len(self.g_raw) == old(len(self.g_raw)) + 1 and self.g_raw[old(len(self.g_raw))] is value
+            and forall(lambda k: implies(0 <= k and k < old(len(self.g_raw)), self.g_raw[k] == old(self.g_raw[k])), self.g_raw[k]))
+
+@contract('RepeatedNodeWrapper.pop')
+def _(self, index):
+    requires(self != None and self.g_raw != None and 0 <= index and index < len(self.g_raw))
+    modifies('list[RawModel]@self.g_raw', 'list[int]')
+    ensures(result is old(self.g_raw[index]) and len(self.g_raw) == old(len(self.g_raw)) - 1
+            and forall(lambda k: implies(0 <= k and k < len(self.g_raw), self.g_raw[k] == sel(old(elems(self.g_raw)), ite(k < index, k, k + 1))), self.g_raw[k]))
+
+@macro
+def View(v):      # the view's index table describes the raw list as it is now
+    return v != None and v._raw_wrapper != None and v._raw_wrapper.g_raw != None and v._raw_indexes != None and RI(v._raw_indexes, elems(v._raw_wrapper.g_raw), len(v._raw_wrapper.g_raw))
+
+# len(view) = number of raw items of the view's type
+@contract('RepeatedValueWrapper.__len__')
+def _(self):
+    requires(View(self))
+    modifies()
+    ensures(result == rank(elems(self._raw_wrapper.g_raw), len(self._raw_wrapper.g_raw)))
+
+# view[i] (0 <= i) = the converted i-th raw item of the view's type: the raw item at the position p with IsT(raw[p]) and exactly i matching items before it
+@contract('RepeatedValueWrapper.__getitem__')
+def _(self, index):
+    types(index='int')
+    requires(View(self) and 0 <= index and index < len(self._raw_indexes))
+    modifies()
+    ensures(exists(lambda p: 0 <= p and p < len(self._raw_wrapper.g_raw) and IsT(sel(elems(self._raw_wrapper.g_raw), p)) and rank(elems(self._raw_wrapper.g_raw), p) == index
+                              and result == sel(self._from_raw_type, sel(elems(self._raw_wrapper.g_raw), p))))
+
+# view.insert(i, v): the converted value goes into the raw list right in front of the i-th item of the view's type (at the very end / front when i is out of range),
+# i.e. at a raw position with exactly clamp(i) matching items before it - list.insert semantics on the filtered list
+@contract('RepeatedValueWrapper.insert')
+def _(self, index, value):
+    requires(View(self) and (index >= 0 or index < -len(self._raw_indexes)))
+    modifies('list[RawModel]@self._raw_wrapper.g_raw', 'list[int]', 'RepeatedValueWrapper.g_at@self')
+    after_assign('raw_index', 'setint', 'g_at', raw_index)
+    ensures(0 <= self.g_at and self.g_at <= old(len(self._raw_wrapper.g_raw))
+            and rank(old(elems(self._raw_wrapper.g_raw)), self.g_at) == old(ite(index < 0, 0, ite(index > len(self._raw_indexes), len(self._raw_indexes), index))))
+    ensures(len(self._raw_wrapper.g_raw) == old(len(self._raw_wrapper.g_raw)) + 1 and self._raw_wrapper.g_raw[self.g_at] == sel(self._to_raw_type, value)
+            and forall(lambda k: implies(0 <= k and k < len(self._raw_wrapper.g_raw) and k != self.g_at, self._raw_wrapper.g_raw[k] == sel(old(elems(self._raw_wrapper.g_raw)), ite(k < self.g_at, k, k - 1))), self._raw_wrapper.g_raw[k]))
+
+@contract('RepeatedValueWrapper.append')
+def _(self, value):
+    requires(View(self))
+    modifies('list[RawModel]@self._raw_wrapper.g_raw', 'list[int]')
+    ensures(len(self._raw_wrapper.g_raw) == old(len(self._raw_wrapper.g_raw)) + 1 and self._raw_wrapper.g_raw[old(len(self._raw_wrapper.g_raw))] == sel(self._to_raw_type, value)
+            and forall(lambda k: implies(0 <= k and k < old(len(self._raw_wrapper.g_raw)), self._raw_wrapper.g_raw[k] == old(self._raw_wrapper.g_raw[k])), self._raw_wrapper.g_raw[k]))
+
+# view.pop(i) (0 <= i < len): removes exactly the i-th raw item of the view's type and returns it converted; out of range is refused with nothing changed
+@contract('RepeatedValueWrapper.pop')
+def _(self, index):
+    requires(View(self) and (index >= 0 or index < -len(self._raw_indexes)))
+    modifies('list[RawModel]@self._raw_wrapper.g_raw', 'list[int]', 'RepeatedValueWrapper.g_at@self')
+    raises('IndexError', 'list[RawModel]', 'list[int]', when=not (-len(self._raw_indexes) <= index and index < len(self._raw_indexes)))
+    after_assign('raw_index', 'setint', 'g_at', raw_index)
+    ensures(0 <= self.g_at and self.g_at < old(len(self._raw_wrapper.g_raw)) and IsT(sel(old(elems(self._raw_wrapper.g_raw)), self.g_at)) and rank(old(elems(self._raw_wrapper.g_raw)), self.g_at) == index)
+    ensures(result == sel(self._from_raw_type, sel(old(elems(self._raw_wrapper.g_raw)), self.g_at)) and len(self._raw_wrapper.g_raw) == old(len(self._raw_wrapper.g_raw)) - 1
+            and forall(lambda k: implies(0 <= k and k < len(self._raw_wrapper.g_raw), self._raw_wrapper.g_raw[k] == sel(old(elems(self._raw_wrapper.g_raw)), ite(k < self.g_at, k, k + 1))), self._raw_wrapper.g_raw[k]))
